@@ -129,15 +129,7 @@ def main(argv=None):
   jobs.sort(key=lambda j: -j.get('cost', 1))
   opts = {'max_seconds': 900 if tier == 'quick' else 7200}
   results = []
-  if a.serial or a.procs == 1:
-    for j in jobs:
-      results.append(run_job((modname, j, opts)))
-  else:
-    import multiprocessing as mp
-    ctx = mp.get_context('spawn')
-    with ctx.Pool(min(a.procs, max(1, len(jobs))), maxtasksperchild=None) as pool:
-      for r in pool.imap_unordered(run_job, [(modname, j, opts) for j in jobs], chunksize=1):
-        results.append(r)
+  results = run_jobs(modname, jobs, opts, a)
   # second stage: jobs whose only failures are induction (invariant) checks are re-run in the
   # harness's follow-up mode to find the observable violation the broken invariant leads to
   if hasattr(mod, 'second_stage'):
@@ -150,15 +142,53 @@ def main(argv=None):
       j2 = [j for j in j2 if j]
       if j2:
         jobs = jobs + j2
-        if a.serial or a.procs == 1:
-          for j in j2: results.append(run_job((modname, j, opts)))
-        else:
-          import multiprocessing as mp
-          ctx = mp.get_context('spawn')
-          with ctx.Pool(min(a.procs, len(j2))) as pool:
-            for r in pool.imap_unordered(run_job, [(modname, j, opts) for j in j2], chunksize=1):
-              results.append(r)
+        results.extend(run_jobs(modname, j2, opts, a))
   return report(mod, prop, tier, seed, jobs, results, time.perf_counter() - t0, write=not a.no_evidence and not a.jobs, filtered=bool(a.jobs))
+
+
+def run_jobs(modname, jobs, opts, a):
+  """runs the jobs over a pool of worker processes; a worker that dies (crash in a C extension) is
+  reported as a harness error for its job instead of hanging the run"""
+  results = []
+  if a.serial or a.procs == 1:
+    for j in jobs: results.append(run_job((modname, j, opts)))
+    return results
+  import multiprocessing as mp
+  from concurrent.futures import ProcessPoolExecutor, as_completed
+  from concurrent.futures.process import BrokenProcessPool
+  pending = list(jobs)
+  attempts = 0
+  while pending and attempts < 3:
+    attempts += 1
+    ex = ProcessPoolExecutor(max_workers=min(a.procs, max(1, len(pending))), mp_context=mp.get_context('spawn'))
+    futs = {ex.submit(run_job, (modname, j, opts)): j for j in pending}
+    done_names = set()
+    broken = False
+    try:
+      for f in as_completed(futs):
+        j = futs[f]
+        try:
+          results.append(f.result()); done_names.add(j['name'])
+        except BrokenProcessPool:
+          broken = True
+        except Exception as e:
+          results.append(dict(job=j['name'], ok=False, error='worker failed: %r' % (e,))); done_names.add(j['name'])
+    finally:
+      ex.shutdown(wait=False, cancel_futures=True)
+    pending = [j for j in pending if j['name'] not in done_names]
+    if not broken: break
+    if attempts >= 2:
+      # run the survivors one per process to find the job that kills its worker
+      for j in pending:
+        ex1 = ProcessPoolExecutor(max_workers=1, mp_context=mp.get_context('spawn'))
+        try:
+          results.append(ex1.submit(run_job, (modname, j, opts)).result())
+        except Exception as e:
+          results.append(dict(job=j['name'], ok=False, error='worker process died while running this job: %r' % (e,)))
+        finally:
+          ex1.shutdown(wait=False, cancel_futures=True)
+      pending = []
+  return results
 
 
 def do_replay(path):
